@@ -21,8 +21,8 @@ MANIFEST = dict(
         technique="TLA+ spec + TLC exhaustive check; TLC-generated behaviours replayed into the C code; TLC trace validation of recorded runs",
         design="5/C14")
 CFG = {
-    "quick":    dict(mc="MC_NodeTree.cfg",   gen="Gen_NodeTree.cfg",   nhist=40,  steps=120),
-    "thorough": dict(mc="MC_NodeTree_t.cfg", gen="Gen_NodeTree_t.cfg", nhist=200, steps=300),
+    "quick":    dict(mc=["MC_NodeTree.cfg"], gen=["Gen_NodeTree.cfg"], nhist=40, steps=120),
+    "thorough": dict(mc=["MC_NodeTree_t.cfg"], gen=["Gen_NodeTree.cfg"], nhist=200, steps=300),
 }
 SEAM = ("malloc=vf_malloc", "free=vf_free", "calloc=vf_calloc", "realloc=vf_realloc")
 
@@ -71,18 +71,230 @@ def signature(mm):
     return "%s:%s:%s" % (st["a"], why.split(":")[0], arg_class(st))
 
 
-def nontrivial(recs):
-    """a tree of depth >= 2 (some node has a parent that has a parent) existed and nodes were released"""
-    deep = rel = False
+QUERIES = ("pos", "locate", "find", "next", "traverse", "init", "new")
+
+
+def nontrivial_a(beh):
+    """last call modifies (not a query, not new) a structure in which some node has a parent"""
+    last = beh[-1]
+    if last["a"] in QUERIES:
+        return False
+    links = (last.get("exp") or {}).get("links") or []
+    before = any(s["a"] in ("ginsert", "ninsert") for s in beh[:-1])
+    return before or any(l and l[2] > 0 for l in links)
+
+
+def callkey(beh):
+    return json.dumps([[s["a"], s.get("arg")] for s in beh])
+
+
+def quiet_script(behs):
+    """prefix steps are executed without logging (each is the last step of another behaviour)"""
+    out = []
+    for beh in behs:
+        out.append([dict(a=s["a"], arg=dict(s.get("arg") or {}, q=1)) for s in beh[:-1]] + [beh[-1]])
+    return vlib.to_script(out)
+
+
+def chunks(path, n):
+    buf = []
+    with open(path) as fh:
+        for ln in fh:
+            if ln.startswith('<<"BEHAV", '):
+                buf.append(ln)
+                if len(buf) >= n:
+                    yield buf
+                    buf = []
+    if buf:
+        yield buf
+
+
+def binding_a(ck, exe, gencfg, tag, nt, samples):
+    """TLC exports one behaviour per transition (to a file); each is replayed into the real code."""
+    wdir = vlib.ensure(os.path.join(vlib.WORK, PID))
+    path = os.path.join(wdir, "behav-%s-%d.txt" % (tag, os.getpid()))
+    if os.path.exists(path):
+        os.unlink(path)
+    gen = vlib.tlc("Gen_NodeTree", gencfg, workers=4, extra=("-userFile", path), tag="Gen_NodeTree-" + tag)
+    if gen.error or gen.violation:
+        raise vlib.MachineryError("behaviour export failed: %s %s" % (gen.error, gen.violation))
+    total = nmm = 0
+    acts = {}
+    failed = {}
+    for ch in chunks(path, 25000):
+        behs = vlib.parse_behaviours("".join(ch))
+        recs, _ = vlib.run_driver(exe, quiet_script(behs))
+        mms = vlib.compare(behs, recs, match)
+        for mm in mms:
+            failed[callkey(behs[mm["b"]])] = (behs[mm["b"]], mm)
+        nmm += len(mms)
+        for beh in behs:
+            acts[beh[-1]["a"]] = acts.get(beh[-1]["a"], 0) + 1
+            if nontrivial_a(beh):
+                nt.add(json.dumps([(s["a"], s.get("arg")) for s in beh], sort_keys=True))
+        if not samples:
+            samples += [vlib.sample_repr(b) for b in behs[len(behs) // 2: len(behs) // 2 + 2]]
+        total += len(behs)
+    os.unlink(path)
+    # a behaviour whose prefix already failed only repeats that failure (its prefix is a behaviour of its own)
+    roots = 0
+    for key, (beh, mm) in sorted(failed.items(), key=lambda kv: len(kv[1][0])):
+        calls = json.loads(key)
+        if any(json.dumps(calls[:k]) in failed for k in range(1, len(calls))):
+            continue
+        roots += 1
+        ck.violation(signature(mm), {"binding": "A(replay)", "behaviour": beh, "step": mm["i"],
+                                     "why": mm["why"], "record": mm["rec"]})
+    if total != gen.generated - 1:
+        raise vlib.MachineryError("behaviour export incomplete: %d lines for %d transitions" % (total, gen.generated - 1))
+    ck.cov["evaluations"] += total
+    ck.notes.setdefault("replay", []).append({"cfg": gencfg, "behaviours": total, "mismatches": nmm, "mismatches_without_failed_prefix": roots,
+                                              "last_calls": acts, "tlc_wall_s": round(gen.wall, 1)})
+    return total
+
+
+# ---------------------------------------------------------------------------
+# binding B: call histories at production-like sizes, recorded and validated by TLC
+NB = 24                      # handle table of the recorded histories (MaxNodes of Trace_NodeTree.cfg)
+NAMELENS = [0, 1, 1, 2, 3, 7, 8, 20, 27, 28, 29, 60, 100, 200, 251, 252, 253, 255, 256, 300]
+OPS = [("new", 20), ("ginsert", 10), ("ninsert", 10), ("gadd", 6), ("nadd", 7), ("after", 4), ("before", 4),
+       ("unlink", 6), ("destroy", 4), ("clear", 2), ("relink", 3), ("clonenode", 2), ("clonetree", 4),
+       ("clonelist", 4), ("move", 7), ("swap", 3), ("pos", 2), ("locate", 3), ("find", 3), ("next", 2),
+       ("traverse", 3)]
+
+
+def name_pool(rng):
+    base = rng.choice("abcdxyz")
+    pool = ["a", "b"]
+    for ln in rng.sample(NAMELENS, 3):
+        pool.append("" if ln == 0 else base * (ln - 1) + rng.choice("ab"))   # long names share their prefix
+    return pool
+
+
+def extend(rng, hist, obs, pool, k):
+    """k more calls.  Arguments are picked with the help of the structure the real code reported last
+    (which handles are in use / unlinked); nothing here is compared with anything."""
+    links = (obs or {}).get("links") or [[] for _ in range(NB)]
+    live = [i + 1 for i, l in enumerate(links) if l]
+    iso = [i for i in live if links[i - 1][:3] == [0, 0, 0]]
+    free = [i + 1 for i, l in enumerate(links) if not l]
+    names, weights = zip(*OPS)
+    for _ in range(k):
+        op = rng.choices(names, weights)[0]
+        if len(live) < 3 and rng.random() < 0.6:
+            op = "new"
+
+        def any_handle():
+            return rng.randrange(0, NB + 2) if rng.random() < 0.06 or not live else rng.choice(live)
+
+        def unlinked():
+            return rng.choice(iso) if iso and rng.random() < 0.9 else any_handle()
+        pos = rng.choice([-6, -3, -2, -1, 0, 0, 1, 1, 2, 3, 4, 7])
+        if op == "new":
+            arg = {"name": rng.choice(pool), "val": rng.choice([0, 0, rng.randrange(1, 1000)])}
+            if free:            # the node will get the smallest unused handle
+                live.append(free[0]); iso.append(free[0]); free.pop(0)
+        elif op in ("ginsert", "ninsert"):
+            arg = {"p": any_handle(), "pos": pos, "n": unlinked()}
+        elif op in ("gadd", "nadd"):
+            arg = {"first": any_handle(), "pos": pos, "n": unlinked()}
+        elif op in ("after", "before"):
+            arg = {"p": rng.choice([0, any_handle(), any_handle(), any_handle()]), "n": unlinked()}
+        elif op == "move":
+            arg = {"s": any_handle(), "d": any_handle()}
+        elif op == "swap":
+            arg = {"a": any_handle(), "b": any_handle()}
+        elif op == "pos":
+            arg = {"n": any_handle(), "pos": pos}
+        elif op == "locate":
+            arg = {"n": any_handle(), "pos": pos, "key": rng.choice(pool)}
+        elif op == "find":
+            arg = {"p": any_handle(), "key": rng.choice(pool), "pos": pos}
+        elif op == "next":
+            arg = {"n": any_handle(), "key": rng.choice(pool)}
+        elif op == "traverse":
+            arg = {"n": any_handle(), "ord": rng.choice(["pre", "post", "in"])}
+        else:
+            arg = {"n": any_handle()}
+        if op in ("ginsert", "ninsert", "gadd", "nadd", "after", "before") and arg["n"] in iso:
+            iso.remove(arg["n"])
+        arg["g"] = 1
+        hist.append({"a": op, "arg": arg})
+
+
+def record_histories(ck, exe, n, steps, batch=10):
+    rng = ck.rng
+    hists = [[{"a": "init", "arg": {"n": NB}}] for _ in range(n)]
+    pools = [name_pool(rng) for _ in range(n)]
+    last = [None] * n
+    for _ in range(0, steps, batch):
+        for h in range(n):
+            extend(rng, hists[h], last[h], pools[h], batch)
+        recs, _ = vlib.run_driver(exe, quiet_script(hists))
+        by = vlib.group_records(recs)
+        for h in range(n):
+            rs = by.get(h, [])
+            if rs and rs[-1].get("a") not in ("Crash", "Hang", "Garbled"):
+                last[h] = rs[-1].get("obs") or None
+    recs, _ = vlib.run_driver(exe, vlib.to_script(hists))
+    return hists, recs
+
+
+def nontrivial_b(recs):
+    """a node with a grandparent existed, nodes were released, and a clone or move of linked nodes happened"""
+    deep = rel = big = False
     for r in recs:
         o = r.get("obs") or {}
         links = o.get("links") or []
         for l in links:
-            if l and l[2] > 0 and l[2] <= len(links) and links[l[2] - 1] and links[l[2] - 1][2] > 0:
+            if l and 0 < l[2] <= len(links) and links[l[2] - 1] and links[l[2] - 1][2] > 0:
                 deep = True
         if o.get("freed"):
             rel = True
-    return deep and rel
+        if r.get("a") in ("clonetree", "clonelist", "move") and not o.get("skip"):
+            big = True
+    return deep and rel and big
+
+
+def trace_signature(ev):
+    if ev is None:
+        return "trace:short"
+    if ev["a"] in ("Crash", "Hang", "Garbled", "Missing"):
+        return "trace:%s" % ev["a"].lower()
+    return "trace:%s:%s:%s" % (ev["a"], "skipped" if (ev.get("obs") or {}).get("skip") else "rejected", arg_class(ev))
+
+
+def binding_b(ck, exe, n, steps, nt):
+    hists, recs = record_histories(ck, exe, n, steps)
+    events = vlib.merge_trace(hists, recs)
+    ok, matched, tres = vlib.validate_trace("Trace_NodeTree", events, tag="Trace_NodeTree", xss="1g")
+    ck.cov["transitions"] += tres.generated
+    if not ok:
+        ok2, matched2, _ = vlib.validate_trace("Trace_NodeTree", events, tag="Trace_NodeTree", xss="1g")
+        if not ok2 and matched2 == matched:
+            ev = events[matched] if matched < len(events) else None
+            beh = hists[ev["b"]][:ev["i"] + 1] if ev else None
+            ck.violation(trace_signature(ev), {"binding": "B(trace validation)", "matched_prefix": matched,
+                                               "rejected_event": ev, "previous_event": events[matched - 1] if matched else None,
+                                               "behaviour": beh, "tlc_tail": tres.out[-1500:]})
+        else:
+            ok = ok2
+    by = vlib.group_records(recs)
+    skipped = made = 0
+    for h, hist in enumerate(hists):
+        rs = by.get(h, [])
+        if nontrivial_b(rs):
+            nt.add(callkey(hist))
+        for r in rs:
+            if (r.get("obs") or {}).get("skip"):
+                skipped += 1
+            else:
+                made += 1
+    ck.cov["traces_validated_against_impl"] = len(hists) if ok else 0
+    ck.cov["evaluations"] += len(hists)
+    ck.notes["trace"] = {"histories": len(hists), "events": len(events), "events_matched": matched,
+                         "calls_made": made, "calls_skipped_by_guard": skipped, "tlc_wall_s": round(tres.wall, 1)}
+    return hists
 
 
 def run(tier):
@@ -91,31 +303,47 @@ def run(tier):
     exe = build()
 
     # 1. the link structure (Tier 2) implements the ordered forest (Tier 1)
-    res = vlib.tlc("MC_NodeTree", cfg["mc"], coverage=False)
-    ck.add_tlc(res, "exhaustive " + cfg["mc"])
+    for mc in cfg["mc"]:
+        res = vlib.tlc("MC_NodeTree", mc, tag="MC_NodeTree-" + mc, deque=True)
+        ck.add_tlc(res, "exhaustive " + mc)
 
     # 2. binding A: every transition replayed into the real code
-    gen = vlib.tlc("Gen_NodeTree", cfg["gen"], workers=4)
-    if gen.error or gen.violation:
-        raise vlib.MachineryError("behaviour export failed: %s %s" % (gen.error, gen.violation))
-    behs = vlib.parse_behaviours(gen.out)
-    recs, _ = vlib.run_driver(exe, vlib.to_script(behaviours=behs))
-    mms = vlib.compare(behs, recs, match)
-    for mm in mms:
-        ck.violation(signature(mm), {"binding": "A(replay)", "behaviour": behs[mm["b"]], "step": mm["i"],
-                                     "why": mm["why"], "record": mm["rec"]})
-    by = vlib.group_records(recs)
     nt = set()
-    for b, beh in enumerate(behs):
-        if nontrivial(by.get(b, [])):
-            nt.add(json.dumps([(s["a"], s.get("arg")) for s in beh], sort_keys=True))
-    ck.cov["evaluations"] += len(behs)
-    ck.notes["replayed_behaviours"] = len(behs)
-    ck.notes["replay_mismatches"] = len(mms)
+    samples = []
+    for g in cfg["gen"]:
+        binding_a(ck, exe, g, g.replace(".cfg", ""), nt, samples)
+
+    # 3. binding B: recorded executions at production-like sizes validated by TLC
+    hists = binding_b(ck, exe, cfg["nhist"], cfg["steps"], nt)
     ck.cov["distinct_nontrivial"] = len(nt)
     ck.cov["exhaustive"] = True
-    ck.cov["samples"] = [vlib.sample_repr(b) for b in behs[len(behs) // 2: len(behs) // 2 + 2]]
+    ck.cov["samples"] = samples + [[{"a": s["a"], "arg": s["arg"]} for s in hists[0][:10]]]
+    ck.cov["rule"] = ("A: one behaviour per transition of the TLC state graph of NodeTree (states identified up to renaming "
+                      "of handles; every call with every handle/position/name argument of the configuration), replayed into "
+                      "the real node code; B: seeded call histories on a table of %d handles with names of 0..300 bytes, "
+                      "recorded from the real code and validated by TLC against NodeTree.  Non-trivial (A) = the last call is "
+                      "a modifying call other than new on a structure in which some node has a parent; (B) = a node with a "
+                      "grandparent existed, nodes were released and a tree/list clone or a move was executed; distinct by "
+                      "call sequence." % NB)
+    ck.assumptions = ["TLC/SANY and the CommunityModules Json/IOUtils are correct",
+                      "drv/nodetree.c projects the state without judgement (follows the four pointers of each node, maps "
+                      "them to handles); its guard of the caller obligations is cross-checked by TLC on every recorded call",
+                      "callers link only unlinked nodes and never link a node below itself (GNode-style precondition)",
+                      "identifying states up to renaming of handles is sound: actions and properties do not depend on "
+                      "particular handles (checked once against the unreduced 4-node graph, 348135 states)",
+                      "releases are decided for node blocks (allocation seam) and the driver's value objects; name buffers "
+                      "of long identifiers are observed by ASan only",
+                      "the exhaustive model is bounded (see MC cfg); beyond it coverage is by the seeded histories"]
     return ck.finish()
+
+
+def replay_trace(beh, recs, path):
+    events = vlib.merge_trace([beh], recs)
+    ok, matched, _ = vlib.validate_trace("Trace_NodeTree", events, tag="Trace_NodeTree_replay", xss="1g")
+    if not ok:
+        print("VIOLATION property=%s replay=%s  (trace rejected at event %d: %s)" %
+              (PID, path, matched, json.dumps(events[matched])[:600] if matched < len(events) else "-"))
+    return 0 if ok else 1
 
 
 def replay(path):
@@ -127,6 +355,8 @@ def replay(path):
         return 2
     exe = build()
     recs, err = vlib.run_driver(exe, vlib.to_script([beh]))
+    if not any("exp" in s for s in beh):
+        return replay_trace(beh, recs, path)
     mms = vlib.compare([beh], recs, match)
     for mm in mms:
         print("VIOLATION property=%s replay=%s  (%s: %s)" % (PID, path, signature(mm), mm["why"]))
